@@ -190,8 +190,8 @@ fn run_case(ctx: &mut Ctx, n: usize, directed: bool, edges: Vec<E>, thorough: bo
             let b = enc::stable_holes::<$T, u32, u8>(&abs);
             full_caps!(ctx, &abs, &b);
             adaptors_on!(ctx, &abs, &b, false);
-            for v in 0..2 {
-                if let Some(b) = enc::graphmap::<$T, u8>(&abs, v) {
+            for v in 0..3 {
+                if let Some(b) = if v < 2 { enc::graphmap::<$T, u8>(&abs, v) } else { enc::graphmap_removed::<$T, u8>(&abs) } {
                     // EdgeIndexable on GraphMap<Undirected> is only constrained on ids from edge_references (note N4)
                     full_caps!(ctx, &abs, &b);
                     v_compact!(ctx, &abs, &b);
@@ -208,7 +208,8 @@ fn run_case(ctx: &mut Ctx, n: usize, directed: bool, edges: Vec<E>, thorough: bo
                     }
                 }
             }
-            if let Some(b) = enc::csr::<$T, u8>(&abs) {
+            for v in 0..2 {
+                let Some(b) = (if v == 0 { enc::csr::<$T, u8>(&abs) } else { enc::csr_cleared::<$T, u8>(&abs) }) else { continue };
                 v_core!(ctx, &abs, &b, false);
                 v_counts!(ctx, &abs, &b, nodes);
                 v_counts!(ctx, &abs, &b, edges);
@@ -275,7 +276,7 @@ fn families(a: &Args) -> Vec<Family> {
             name: if directed { "lists3-directed" } else { "lists3-undirected" },
             thorough_only: false,
             count: f.count(),
-            bounds: format!("{} in Graph (two histories), StableGraph (compact / vacancies), GraphMap (two key orders), MatrixGraph (compact / removed id), Csr, adj::List, and through &G, Frozen, Reversed, UndirectedAdaptor, NodeFiltered (every node subset; closure / FixedBitSet / HashSet), EdgeFiltered (every edge subset) and their depth-2 stackings", f.bounds()),
+            bounds: format!("{} in Graph (two histories), StableGraph (compact / vacancies), GraphMap (two key orders / after node removals), MatrixGraph (compact / removed ids), Csr (fresh / after clear_edges), adj::List, and through &G, Frozen, Reversed, UndirectedAdaptor, NodeFiltered (every node subset; closure / FixedBitSet / HashSet), EdgeFiltered (every edge subset) and their depth-2 stackings", f.bounds()),
             run: Box::new(move |idx, ctx| { let (n, e) = f.get(idx); run_case(ctx, n, directed, e, t) }),
             describe: Box::new(move |idx| { let (n, e) = f2.get(idx); json!({"n": n, "directed": directed, "edges": e}) }),
         });
